@@ -180,14 +180,16 @@ def run_property(pid, rules, tier, seed, explanation, assumptions, replay=None, 
             kf.append(f)
         else:
             viol.append(f)
-    os.makedirs(os.path.join(VERIF, "replays"), exist_ok=True)
-    os.makedirs(os.path.join(VERIF, "evidence"), exist_ok=True)
+    # QSA_OUT redirects the replay/evidence files (used when a scratch tree, not /repo, is analysed)
+    out_root = os.environ.get("QSA_OUT") or VERIF
+    os.makedirs(os.path.join(out_root, "replays"), exist_ok=True)
+    os.makedirs(os.path.join(out_root, "evidence"), exist_ok=True)
     for f in kf:
         print(f"KNOWN-FINDING: property={pid} {f.key} :: {known_open[f.key].get('what', f.what)}")
     replay_hit = None
     for f in viol:
         hid = hashlib.sha1(f.key.encode()).hexdigest()[:10]
-        path = os.path.join(VERIF, "replays", f"{pid}-{hid}.json")
+        path = os.path.join(out_root, "replays", f"{pid}-{hid}.json")
         with open(path, "w") as fh:
             json.dump({"property": pid, **f.to_json()}, fh, indent=1)
         print(f"VIOLATION property={pid} replay={path}")
@@ -250,7 +252,7 @@ def run_property(pid, rules, tier, seed, explanation, assumptions, replay=None, 
     }
     if st is not None:
         ev["coverage"]["mutation_selfcheck"] = st
-    with open(os.path.join(VERIF, "evidence", f"{pid}.json"), "w") as fh:
+    with open(os.path.join(out_root, "evidence", f"{pid}.json"), "w") as fh:
         json.dump(ev, fh, indent=1)
     print(
         f"{pid}: {obligations} obligations over {len(results)} rules, {discharged} discharged, "
